@@ -188,6 +188,123 @@ theorem distinct_ids_not_ambivalent (t : P) (hn : ((subs t).map (·.id)).Nodup) 
         have := hinj a (List.mem_filter.1 ha).1 b (List.mem_filter.1 hb).1 (by simpa using hid)
         subst this; simp [sameDef_refl]
 
+/-! ### the converse for models that merely share identical sub-propositions -/
+
+theorem nodup_hasDup_false : ∀ l : List (String × String), l.Nodup → hasDup l = false
+  | [], _ => rfl
+  | x :: xs, h => by
+      have ⟨h1, h2⟩ := List.nodup_cons.1 h
+      simp only [hasDup, Bool.or_eq_false_iff]
+      exact ⟨by simpa using h1, nodup_hasDup_false xs h2⟩
+
+theorem dedupBeq_sub : ∀ (l : List P) (x : P), x ∈ dedupBeq l → x ∈ l
+  | [], x, h => by simp [dedupBeq] at h
+  | y :: ys, x, h => by
+      simp only [dedupBeq] at h
+      split at h
+      · exact List.mem_cons_of_mem _ (dedupBeq_sub ys x h)
+      · rcases List.mem_cons.1 h with rfl | h
+        · simp
+        · exact List.mem_cons_of_mem _ (dedupBeq_sub ys x h)
+
+/-- when one id means one node, the flattened list has pairwise distinct ids -/
+theorem dedupBeq_ids_nodup : ∀ l : List P, (∀ a ∈ l, ∀ b ∈ l, a.id = b.id → a = b) → ((dedupBeq l).map (·.id)).Nodup
+  | [], _ => by simp [dedupBeq]
+  | x :: xs, h => by
+      have ih := dedupBeq_ids_nodup xs (fun a ha b hb => h a (List.mem_cons_of_mem _ ha) b (List.mem_cons_of_mem _ hb))
+      simp only [dedupBeq]
+      split
+      · exact ih
+      · rename_i hany
+        simp only [List.map_cons, List.nodup_cons, List.mem_map, not_exists, not_and]
+        refine ⟨fun r hr hid => ?_, ih⟩
+        have hrx : r ∈ xs := dedupBeq_sub xs r hr
+        have : r = x := h r (List.mem_cons_of_mem _ hrx) x (by simp) hid
+        subst this
+        exact hany (List.any_eq_true.2 ⟨r, hrx, beq_refl r⟩)
+
+theorem mem_edges_fst (n : P) (e : String × String) (h : e ∈ edges n) : e.1 = n.id := by
+  cases n with
+  | leaf i b => simp [edges] at h
+  | node i b s v ks m =>
+      simp only [edges, List.mem_map] at h
+      obtain ⟨k, _, rfl⟩ := h
+      rfl
+
+theorem nodup_map_of_inj {α β} (f : α → β) (hf : ∀ a b, f a = f b → a = b) : ∀ l : List α, l.Nodup → (l.map f).Nodup
+  | [], _ => by simp
+  | x :: xs, h => by
+      have ⟨h1, h2⟩ := List.nodup_cons.1 h
+      simp only [List.map_cons, List.nodup_cons, List.mem_map, not_exists, not_and]
+      exact ⟨fun y hy hxy => h1 (by rw [← hf y x hxy]; exact hy), nodup_map_of_inj f hf xs h2⟩
+
+theorem edges_nodup (n : P) (h : (n.kids.map (·.id)).Nodup) : (edges n).Nodup := by
+  cases n with
+  | leaf i b => simp [edges]
+  | node i b s v ks m =>
+      simp only [edges, P.kids] at *
+      have : ks.map (fun k => (i, k.id)) = (ks.map (·.id)).map (fun c => (i, c)) := by simp
+      rw [this]
+      exact nodup_map_of_inj _ (fun a b hab => by simpa using hab) _ h
+
+theorem flatMap_edges_nodup : ∀ l : List P, (l.map (·.id)).Nodup → (∀ n ∈ l, (n.kids.map (·.id)).Nodup) →
+    (l.flatMap edges).Nodup
+  | [], _, _ => by simp
+  | x :: xs, hn, hk => by
+      simp only [List.map_cons, List.nodup_cons, List.mem_map, not_exists, not_and] at hn
+      simp only [List.flatMap_cons]
+      refine List.nodup_append.2 ⟨edges_nodup x (hk x (by simp)),
+        flatMap_edges_nodup xs hn.2 (fun n hn' => hk n (List.mem_cons_of_mem _ hn')), ?_⟩
+      intro e he e' he' hee
+      subst hee
+      obtain ⟨y, hy, hey⟩ := List.mem_flatMap.1 he'
+      have h1 := mem_edges_fst x e he
+      have h2 := mem_edges_fst y e hey
+      exact hn.1 y hy (by rw [← h2, h1])
+
+/-- Conversely: a model in which one id always means one and the same sub-proposition (shared objects or identical
+    copies — tree-shaped models with pairwise distinct ids are the special case) and in which no node lists a child
+    twice passes both ambivalence checks and the duplicate-edge check; with an acyclic id graph (the clause `graphlib`
+    decides) it is accepted. -/
+theorem shared_identical_accepted (t : P)
+    (hs : ∀ a ∈ subs t, ∀ b ∈ subs t, a.id = b.id → a = b)
+    (hk : ∀ n ∈ subs t, (n.kids.map (·.id)).Nodup) (hc : hasCycle t = false) :
+    errors t = [] := by
+  apply (errors_nil_iff t).2
+  refine ⟨hc, ?_, ?_, ?_⟩
+  · apply (any_any_false _ _ _).2
+    intro a ha b hb
+    cases hid : (a.id == b.id) with
+    | false => simp
+    | true =>
+        have := hs a ha b hb (by simpa using hid)
+        subst this; simp
+  · apply (any_any_false _ _ _).2
+    intro a ha b hb
+    cases hid : (a.id == b.id) with
+    | false => simp
+    | true =>
+        have := hs a (List.mem_filter.1 ha).1 b (List.mem_filter.1 hb).1 (by simpa using hid)
+        subst this; simp [sameDef_refl]
+  · unfold dupEdges
+    apply nodup_hasDup_false
+    have hsub : ∀ x ∈ (subs t).filter (fun k => !k.isLeaf), x ∈ subs t := fun x hx => (List.mem_filter.1 hx).1
+    apply flatMap_edges_nodup
+    · exact dedupBeq_ids_nodup _ (fun a ha b hb => hs a (hsub a ha) b (hsub b hb))
+    · intro n hn
+      exact hk n (hsub n (dedupBeq_sub _ n hn))
+
+/-- the tree-shaped case: pairwise distinct ids make one id mean one node -/
+theorem distinct_ids_accepted (t : P) (hn : ((subs t).map (·.id)).Nodup)
+    (hk : ∀ n ∈ subs t, (n.kids.map (·.id)).Nodup) (hc : hasCycle t = false) : errors t = [] :=
+  shared_identical_accepted t (nodup_ids_inj t hn) hk hc
+
+/-- non-vacuity of `shared_identical_accepted`: the same sub-proposition under two parents -/
+example :
+    let b : P := .node "B" ⟨0,1⟩ 1 1 [.leaf "x" ⟨0,3⟩, .leaf "y" ⟨1,2⟩] {}
+    let t : P := .node "T" ⟨0,1⟩ 1 2 [b, .node "C" ⟨0,1⟩ 1 1 [b, .leaf "z" ⟨0,1⟩] {}] {}
+    errors t = [] := by decide
+
 /-- non-vacuity / regression witnesses of D4 and D5 in the model: equal-sum bounds are told apart,
     and ids containing '-' do not make a distinct-id tree look like it repeats an edge -/
 example :
